@@ -16,7 +16,7 @@ func init() {
 	register("C09", checkC09)
 	describe("C09", Meta{
 		Technique: "effect/ownership (confinement) analysis on go/ssa with interprocedural write summaries: every store, map update, append/copy and write-assumed external call on the simulation path is traced to the root of the written address (parameter, package-level variable, captured variable, fresh memory), resolving go/ssa's spilled value receivers",
-		Claim:     "Decides the confinement clauses of C09: (R1) every Opcode.Simulate implementation and its callees write only memory reachable from the *VM argument (not through vm.Mach) or fresh memory — never through the process-wide opcode singleton, a package-level variable or the Machine shared by processors; (R2) nothing reachable from the per-tick simulation entry points writes package-level state; (R3) the per-processor worker touches vm.Processors only at its own procId; (R5) a loop that receives the workers' completion messages (a channel field several goroutines send on) builds no order-sensitive result (string concatenation, unsorted append) in arrival order. A necessary condition for schedule- and co-simulation-independence; data races inside one VM between the stepping goroutines and the driver, and DelayDistribution randomness, are not decided.",
+		Claim:     "Decides the confinement clauses of C09: (R1) every Opcode.Simulate implementation and its callees write only memory reachable from the *VM argument (not through vm.Mach) or fresh memory — never through the process-wide opcode singleton, a package-level variable or the Machine shared by processors; (R2) nothing reachable from the per-tick simulation entry points writes package-level state; (R3) the per-processor worker touches vm.Processors only at its own procId; (R4) between telling the workers to step and collecting their completion messages the coordinator stores nothing into the processors' state; (R5) a loop that receives the workers' completion messages (a channel field several goroutines send on) builds no order-sensitive result (string concatenation, unsorted append) in arrival order. A necessary condition for schedule- and co-simulation-independence; data races inside one VM between the stepping goroutines and the driver, and DelayDistribution randomness, are not decided.",
 		Note:      "Calls through interfaces fan out to every implementation in the module; external (stdlib) methods with pointer receivers are assumed to write their receiver unless on a short read-only list; call results of module functions are mapped through a one-level return summary. Summaries are depth-bounded (8).",
 		DesignRef: "DESIGN.md §2 C09",
 	})
@@ -170,6 +170,9 @@ func checkC09(r *core.Run) {
 
 	// ---- R5: arrival order of the workers' completion messages does not reach the reports
 	c09Arrival(r, prog)
+
+	// ---- R4: the coordinator does not touch the processors while the workers are stepping them
+	c09Phase(r, prog)
 
 	// ---- R3: the worker only touches its own processor
 	for _, fn := range methodsNamed(prog, "pkg/bondmachine", "Processor_execute") {
@@ -333,4 +336,135 @@ func c09Arrival(r *core.Run, prog *core.Program) {
 		})
 	}
 	r.Count("multi_sender_receive_loops", n)
+}
+
+
+// c09Phase (C09/PHASE): the per-tick barrier. In a function of pkg/bondmachine that tells the
+// per-processor workers to step (a send on an element of a slice-of-channels field) and then collects
+// their completion messages (receives from the channel field they all send on), everything the
+// coordinator writes into the processors' state (memory reached through vm.Processors) must happen
+// before the first go-ahead or after the last completion: a write placed between the two races with
+// the worker that is executing an instruction on that very state, and whether the worker sees the old
+// or the new value depends on the scheduler.
+func c09Phase(r *core.Run, prog *core.Program) {
+	sp := prog.SSAPkg("pkg/bondmachine")
+	if sp == nil {
+		return
+	}
+	fieldNameOfLoad := func(v ssa.Value) (string, bool) { // load of X.f  |  load of X.f[i]
+		u, ok := stripConv(v).(*ssa.UnOp)
+		if !ok || u.Op != token.MUL {
+			return "", false
+		}
+		switch a := u.X.(type) {
+		case *ssa.FieldAddr:
+			if f := fieldOfAddr(a); f != nil {
+				return f.Name(), false
+			}
+		case *ssa.IndexAddr:
+			if u2, ok := a.X.(*ssa.UnOp); ok && u2.Op == token.MUL {
+				if fa, ok := u2.X.(*ssa.FieldAddr); ok {
+					if f := fieldOfAddr(fa); f != nil {
+						return f.Name(), true
+					}
+				}
+			}
+		}
+		return "", false
+	}
+	throughProcessors := func(addr ssa.Value) bool {
+		v := addr
+		for i := 0; i < 12; i++ {
+			switch x := v.(type) {
+			case *ssa.FieldAddr:
+				if f := fieldOfAddr(x); f != nil && f.Name() == "Processors" && f.Pkg() != nil && strings.HasSuffix(f.Pkg().Path(), "pkg/bondmachine") {
+					return true
+				}
+				v = x.X
+			case *ssa.IndexAddr:
+				v = x.X
+			case *ssa.UnOp:
+				v = x.X
+			case *ssa.Field:
+				v = x.X
+			case *ssa.Index:
+				v = x.X
+			case *ssa.Lookup:
+				v = x.X
+			case *ssa.ChangeType:
+				v = x.X
+			case *ssa.Slice:
+				v = x.X
+			default:
+				return false
+			}
+		}
+		return false
+	}
+	reach := func(from, to ssa.Instruction) bool {
+		if from.Block() == to.Block() && instrIndex(from) < instrIndex(to) {
+			return true
+		}
+		return blockReaches(from.Block(), to.Block())
+	}
+	n := 0
+	var fns []*ssa.Function
+	for fn := range allFuncsOf(prog, sp) {
+		fns = append(fns, fn)
+	}
+	sort.Slice(fns, func(i, j int) bool { return fns[i].String() < fns[j].String() })
+	for _, fn := range fns {
+		var dispatch, join, writes []ssa.Instruction
+		for _, b := range fn.Blocks {
+			for _, ins := range b.Instrs {
+				switch x := ins.(type) {
+				case *ssa.Send:
+					if _, indexed := fieldNameOfLoad(x.Chan); indexed {
+						dispatch = append(dispatch, ins)
+					}
+				case *ssa.UnOp:
+					if x.Op == token.ARROW {
+						if nm, indexed := fieldNameOfLoad(x.X); nm != "" && !indexed {
+							join = append(join, ins)
+						}
+					}
+				case *ssa.Store:
+					if throughProcessors(x.Addr) {
+						writes = append(writes, ins)
+					}
+				case *ssa.MapUpdate:
+					if throughProcessors(x.Map) {
+						writes = append(writes, ins)
+					}
+				}
+			}
+		}
+		if len(dispatch) == 0 || len(join) == 0 {
+			continue
+		}
+		n++
+		fkey := core.SSAFuncKey(fn)
+		bad := 0
+		for _, w := range writes {
+			afterDispatch, beforeJoin := false, false
+			for _, d := range dispatch {
+				if reach(d, w) {
+					afterDispatch = true
+				}
+			}
+			for _, j := range join {
+				if reach(w, j) {
+					beforeJoin = true
+				}
+			}
+			if afterDispatch && beforeJoin {
+				bad++
+				r.Violation("C09/PHASE", fmt.Sprintf("C09/PHASE:%s:write%d", fkey, bad), prog.Pos(w.Pos()), fmt.Sprintf("%s writes into a processor's state (through vm.Processors) after it has told the workers to step and before it has collected their completion messages: the worker executing an instruction on that processor reads the old or the new value depending on the scheduler (and the access is a data race)", fkey))
+			}
+		}
+		if bad == 0 {
+			r.OK("C09/PHASE", "C09/PHASE:"+fkey, prog.Pos(fn.Pos()), fmt.Sprintf("%d writes into the processors' state, all before the go-ahead or after the join", len(writes)))
+		}
+	}
+	r.Count("dispatch_join_functions", n)
 }
